@@ -254,6 +254,22 @@ def run(ch, idx, tier):
         N = len(t)
         ref_arr = result_arrays(ref)
         bump("model_years_x1000", int(1000 * (t[-1] - t[0])))
+        # set_initialization(result) without a year documents "the last time point": the captured state must be the final one
+        try:
+            from atomica.parameters import Initialization
+
+            last = Initialization.from_result(ref, parset=parset, year=None)
+            for pop in ref.model.pops:
+                for comp in pop.comps:
+                    got = np.atleast_1d(np.asarray(last.values[(comp.name, pop.name)], dtype=float))
+                    raw = getattr(comp, "_vals", None)
+                    exp = np.asarray(raw[:, -1] if (raw is not None and hasattr(comp, "flush_link")) else [comp.vals[-1]], dtype=float)
+                    if got.shape != exp.shape or not np.array_equal(got, exp, equal_nan=True):
+                        violations.append({"cls": "saved_state_is_not_the_requested_year", "site": "Initialization.from_result(year=None)", "detail": {"comp": comp.name, "pop": pop.name, "got": got[:4].tolist(), "expected": exp[:4].tolist(), "config": config}})
+                        raise StopIteration
+            bump("probe:last_year_state_checked")
+        except StopIteration:
+            pass
         crash_indices = list(range(1, N - 1))
         exhaustive = True
         if name in HEAVY:
